@@ -40,7 +40,7 @@ def run(eng, ctx):
             continue
         n += 1
         t = e.term
-        if e.kind == "call" and (t[2] == ("func", "rtcmhelpers.calc_crc24q") or (t[2][0] == "class" and t[2][1].startswith("exceptions.")) or t[2] == ("builtin", "len")):
+        if e.kind == "call" and (t[2] == ("func", "rtcmhelpers.calc_crc24q") or (t[2][0] == "class" and t[2][1].startswith("exceptions.")) or t[2] == ("builtin", "len") or t[2] == ("attr", ("builtin", "int"), "from_bytes")):
             ctx.ok("C17.D1", parse.qualname, norm(e.node)[:80], found="CRC test / error construction under the validate condition", **eng.loc(parse, e.node))
         elif e.kind == "raise":
             ctx.ok("C17.D1", parse.qualname, norm(e.node)[:60], found="raise under the validate condition", **eng.loc(parse, e.node))
